@@ -80,7 +80,34 @@ def one(sid, tier, only_checks=None):
         sh(['git', '-C', '/repo', 'worktree', 'prune'])
 
 
+def write_table(results):
+    lines = ['# Seeded changes: which check catches which change', '',
+             'Produced by `python -m harness.seeded` (see the docstring of harness/seeded.py). "demo clean/seeded" = exit code of the',
+             'demonstration on the unchanged / changed worktree (0 = property holds for its scenario).', '',
+             '| id | property | change | needs | baseline tests | demo clean / seeded | check result |', '|---|---|---|---|---|---|---|']
+    for sid in sorted(results):
+        r = results[sid]
+        if 'error' in r:
+            lines.append(f"| {sid} | {r['property']} | {r['summary'][:90]} | | | | ERROR {r['error'][:80]} |")
+            continue
+        ch = '; '.join(f"{c} [{r.get('tier', 'quick')}]: exit {v['exit']}, {v['violations']} VIOLATION lines ({v['wall_s']} s)" for c, v in r['checks'].items())
+        lines.append(f"| {sid} | {r['property']} | {r['summary'][:160].replace('|', '/')} | {r['needs'][:160].replace('|', '/')} | {r['tests']} | {r['demo_clean']} / {r['demo_seeded']} | "
+                     f"{'**neutralised** (its demonstration passes on the current tree)' if r.get('neutralised') else '**caught**' if r['caught'] else '**MISSED**'}: {ch} |")
+    open(os.path.join(SEEDED, 'RESULTS.md'), 'w').write('\n'.join(lines) + '\n')
+    return lines
+
+
 def main():
+    if '--merge' in sys.argv:
+        # python -m harness.seeded --merge a.json b.json ...: side results of parallel runs -> seeded/RESULTS.json + RESULTS.md
+        results = {}
+        for f in sys.argv[sys.argv.index('--merge') + 1:]:
+            results.update(json.load(open(f)))
+        json.dump(results, open(os.path.join(SEEDED, 'RESULTS.json'), 'w'), indent=1, sort_keys=True)
+        write_table(results)
+        print(len(results), 'results merged;', sum(1 for r in results.values() if r.get('caught')), 'caught,',
+              sum(1 for r in results.values() if r.get('neutralised')), 'neutralised,', sum(1 for r in results.values() if 'error' in r), 'errors')
+        return
     args = [a for a in sys.argv[1:] if not a.startswith('--')]
     tier = 'quick'
     only = None
@@ -100,20 +127,7 @@ def main():
         results[sid] = r
         print(json.dumps({k: v for k, v in r.items() if k != 'summary'}, indent=1)[:1500], flush=True)
         json.dump(results, open(path, 'w'), indent=1, sort_keys=True)
-    lines = ['# Seeded changes: which check catches which change', '',
-             'Produced by `python -m harness.seeded` (see the docstring of harness/seeded.py). "demo clean/seeded" = exit code of the',
-             'demonstration on the unchanged / changed worktree (0 = property holds for its scenario).', '',
-             '| id | property | change | needs | baseline tests | demo clean / seeded | check result |', '|---|---|---|---|---|---|---|']
-    for sid in sorted(results):
-        r = results[sid]
-        if 'error' in r:
-            lines.append(f"| {sid} | {r['property']} | {r['summary'][:90]} | | | | ERROR {r['error'][:80]} |")
-            continue
-        ch = '; '.join(f"{c} [{r.get('tier', 'quick')}]: exit {v['exit']}, {v['violations']} VIOLATION lines ({v['wall_s']} s)" for c, v in r['checks'].items())
-        lines.append(f"| {sid} | {r['property']} | {r['summary'][:160].replace('|', '/')} | {r['needs'][:160].replace('|', '/')} | {r['tests']} | {r['demo_clean']} / {r['demo_seeded']} | "
-                     f"{'**neutralised** (its demonstration passes on the current tree)' if r.get('neutralised') else '**caught**' if r['caught'] else '**MISSED**'}: {ch} |")
-    if not os.environ.get('SEEDED_RESULTS'):
-        open(os.path.join(SEEDED, 'RESULTS.md'), 'w').write('\n'.join(lines) + '\n')
+    lines = write_table(results) if not os.environ.get('SEEDED_RESULTS') else []
     print('\n'.join(lines[-len(results):]))
 
 
